@@ -62,8 +62,8 @@ type gspec struct {
 	flHelper bool // some recorded first()/last() can land on an extracted action / lookahead
 	absent   bool // some exercised expansion lacks a symbol of the rule as written
 	hasMid   bool
-	shortest int
 	items    int
+	rank     int // batches are formed in rank order (then simplest first)
 }
 
 func (g *gspec) ruleTexts() string {
@@ -197,14 +197,12 @@ func (g *gspec) finish(name string) bool {
 	}
 	g.tm = sb.String()
 
-	g.shortest = 1 << 30
 	for ri, r := range g.rules {
 		for _, e := range r.exps {
 			nt := len(tokens(e))
 			if nt > L {
 				continue
 			}
-			g.shortest = min(g.shortest, nt)
 			present := map[int]bool{}
 			for _, en := range e {
 				if en.pos > 0 {
@@ -240,6 +238,17 @@ func (g *gspec) finish(name string) bool {
 				}
 				if rs >= 0 {
 					top.Vals[1], top.Vals[2] = fmt.Sprint(rs), fmt.Sprint(re)
+					// the range of a rule whose last stack symbol is empty (an empty list) ends where
+					// that empty symbol was placed, i.e. at the next token; C16 does not cover this
+					for i := len(placed) - 1; i >= 0; i-- {
+						if placed[i].k == kAct {
+							continue // trailing actions run as (part of) the end-of-rule action
+						}
+						if placed[i].empty || placed[i].k == kLook {
+							top.Vals[2] = wild
+						}
+						break
+					}
 				}
 				want = append(want, top)
 				g.cases = append(g.cases, xcase{text: text, rule: ri, want: want})
@@ -250,12 +259,6 @@ func (g *gspec) finish(name string) bool {
 }
 
 // ---- enumeration of the family
-
-type variant struct {
-	name string
-	sel  func(gs []gap) map[int]bool
-	end  bool
-}
 
 func selAll(gs []gap) map[int]bool {
 	m := map[int]bool{}
@@ -317,14 +320,14 @@ func tuples(n int, lim int, f func(t []int)) {
 func enumerate(quick bool) []*gspec {
 	var out []*gspec
 	seen := map[string]bool{}
-	curItems := 0
+	curItems, curRank := 0, 0
 	add := func(desc string, rules ...*rule) {
 		for _, r := range rules {
 			if r == nil {
 				return
 			}
 		}
-		g := &gspec{desc: desc, rules: rules, items: curItems}
+		g := &gspec{desc: desc, rules: rules, items: curItems, rank: curRank}
 		for i := range rules {
 			if i == 0 {
 				g.prefix = append(g.prefix, "")
@@ -431,7 +434,14 @@ func enumerate(quick bool) []*gspec {
 			}
 			single(t, v)
 		})
+		// pairs sharing action texts
+		curRank = 1
+		pairs(idx("s", "s"), false, true)
+		for _, t := range [][]int{idx("s?", "s"), idx("(s|s)[x]", "s"), idx("s+[x]", "s"), idx("P", "s"), idx("s", "s", "s")} {
+			pairs(t, false, false)
+		}
 		// 2 items: reduced catalogue, maximal non-adjacent placement
+		curRank = 2
 		tuples(2, reducedCatalogue, func(t []int) {
 			v := vGreedy
 			if t[0] <= 1 && t[1] <= 1 {
@@ -451,14 +461,12 @@ func enumerate(quick bool) []*gspec {
 		single(idx("s", "(?=Z)", "s"), vFL)
 		single(idx("s", "s?", "s"), vGreedy|vAll)
 		single(idx("s?", "s", "dup"), vGreedy)
-		// pairs sharing action texts
-		pairs(idx("s", "s"), false, true)
-		for _, t := range [][]int{idx("s?", "s"), idx("(s|s)[x]", "s"), idx("s+[x]", "s"), idx("P", "s"), idx("s", "s", "s")} {
-			pairs(t, false, false)
-		}
 		return out
 	}
 	tuples(1, len(catalogue), func(t []int) { single(t, vEnd|vGreedy|vAll|vSingles|vMidOnly|vFL) })
+	curRank = 1
+	tuples(2, 3, func(t []int) { pairs(t, false, true) })
+	curRank = 2
 	tuples(2, len(catalogue), func(t []int) {
 		v := vEnd | vGreedy | vAll
 		if t[0] < reducedCatalogue && t[1] < reducedCatalogue {
@@ -466,8 +474,11 @@ func enumerate(quick bool) []*gspec {
 		}
 		single(t, v)
 	})
+	curRank = 3
 	tuples(2, reducedCatalogue, func(t []int) { pairs(t, true, true) })
+	curRank = 4
 	tuples(3, reducedCatalogue, func(t []int) { single(t, vGreedy) })
+	curRank = 5
 	tuples(3, 3, func(t []int) { pairs(t, false, true) })
 	return out
 }
@@ -548,7 +559,10 @@ func wantRecords(w []wrec) [][]string {
 
 // sharedMidRuleAtDifferentDepths inspects the compiled grammar (diagnosis only, after a black-box
 // mismatch was observed): is there an extracted mid-rule nonterminal that is used with different
-// numbers of preceding right-hand-side symbols? Its code addresses the stack relative to one depth.
+// numbers of preceding right-hand-side symbols, where the difference consists of lookahead
+// nonterminals only (symbols that occupy a stack slot but have no position in the rule)? Its code
+// addresses the stack relative to one depth. Sharing at depths that differ for any other reason
+// is a different failure and is reported under the generic binding keys.
 func sharedMidRuleAtDifferentDepths(g *grammar.Grammar) (string, bool) {
 	if g == nil || g.Parser == nil {
 		return "", false
@@ -559,39 +573,40 @@ func sharedMidRuleAtDifferentDepths(g *grammar.Grammar) (string, bool) {
 			extracted[int(r.LHS)] = true
 		}
 	}
-	depths := map[int]map[int]string{}
+	type use struct {
+		depth, lookaheads int
+		in                string
+	}
+	uses := map[int][]use{}
 	for _, r := range g.Parser.Rules {
-		k := 0
+		k, la := 0, 0
 		for _, s := range r.RHS {
 			if s.IsStateMarker() {
 				continue
 			}
 			if extracted[int(s)] {
-				if depths[int(s)] == nil {
-					depths[int(s)] = map[int]string{}
-				}
-				depths[int(s)][k] = g.Syms[r.LHS].Name
+				uses[int(s)] = append(uses[int(s)], use{k, la, g.Syms[r.LHS].Name})
+			}
+			if strings.HasPrefix(g.Syms[s].Name, "lookahead_") {
+				la++
 			}
 			k++
 		}
 	}
 	var syms []int
-	for s := range depths {
+	for s := range uses {
 		syms = append(syms, s)
 	}
 	sort.Ints(syms)
 	for _, s := range syms {
-		if len(depths[s]) > 1 {
-			var d []string
-			var ks []int
-			for k := range depths[s] {
-				ks = append(ks, k)
+		us := uses[s]
+		for i := range us {
+			for j := i + 1; j < len(us); j++ {
+				if us[i].depth != us[j].depth && us[i].depth-us[i].lookaheads == us[j].depth-us[j].lookaheads {
+					return fmt.Sprintf("extracted nonterminal %s is shared: used after %d stack symbol(s) in %s and after %d in %s (the difference are lookahead nonterminals, which have no position)",
+						g.Syms[s].Name, us[i].depth, us[i].in, us[j].depth, us[j].in), true
+				}
 			}
-			sort.Ints(ks)
-			for _, k := range ks {
-				d = append(d, fmt.Sprintf("after %d symbol(s) in %s", k, depths[s][k]))
-			}
-			return fmt.Sprintf("extracted nonterminal %s is shared: used %s", g.Syms[s].Name, strings.Join(d, " and ")), true
 		}
 	}
 	return "", false
@@ -651,11 +666,12 @@ func isConflict(genErr string) bool {
 }
 
 func run(c *core.Ctx) {
-	c.Rule("grammars = rule bodies of 1..3 catalogue items (19 item shapes: plain/optional/aliased symbol, optional group, choice with shared alias, " +
-		"multi-symbol alias, +/* lists with and without separator, set, (?= Z) lookahead, typed nonterminal, repeated symbol) x action placements " +
-		"(end only / one mid-rule action at each gap incl. gaps inside groups / every gap / every gap without end action) plus pairs of rules with identical action texts " +
-		"(second rule identical or with a lookahead next to a mid-rule action); every expansion of the rule as written with <= 5 tokens (lists 0..2 elements) x 2 blank patterns is parsed; " +
-		"an evaluation = one recorded reference value compared with the model; a grammar is non-trivial when it has a mid-rule action and an exercised expansion in which a symbol of the rule is absent")
+	c.Rule("one grammar = one rule body of 1..3 catalogue items (19 item shapes: plain/optional/aliased symbol, optional group, choice with shared alias, " +
+		"multi-symbol aliases, +/* lists with and without separator, set, (?= Z) lookahead, typed nonterminal, nested optional/choice, repeated symbol) x one action placement " +
+		"(end action only / mid-rule actions at every gap that cannot become adjacent to another action / at every gap incl. the gaps inside groups / at one gap / no end action / first()+last() everywhere), " +
+		"or a pair of rules with identical action texts (second rule identical or with a lookahead next to a mid-rule action); each action records every reference visible to it; " +
+		"every expansion of the rule as written with <= 5 tokens (lists 0..2 elements) x 2 blank patterns is parsed by the generated parser; " +
+		"evaluation = one recorded reference value compared with the model; a grammar is non-trivial when it was built and run, has a mid-rule action and an exercised expansion in which a symbol of the rule is absent")
 	c.Assume("scratch/rt.Record and the lexer action `$$ = 100 + l.tokenOffset` make token values observable; S: R {record $R} observes $$")
 	c.Assume("conventions without prose documentation are taken from the implementation: 0-based $N, name#k for repeated names, names scoped per parenthesised alternative; " +
 		"values of lists/sets, positions of empty lists and first()/last() landing on an extracted action or lookahead are not specified and are left out")
@@ -675,18 +691,12 @@ func run(c *core.Ctx) {
 	// grammars that can put two actions next to each other go into batches of their own: the
 	// generated code for those does not build at present (finding adjacent-actions), and one
 	// failing package costs a rebuild of the whole batch
-	// order: single rules of one item, then the pairs, then the rest (each simplest first), so that
-	// a run cut short by the budget has still seen every family
+	// order: single rules of one item, then the basic pairs, then the rest (each simplest first),
+	// so that a run cut short by the budget has still seen every family
 	var order []*gspec
-	for rank := 0; rank < 3; rank++ {
+	for rank := 0; rank <= 5; rank++ {
 		for _, g := range specs {
-			r := 2
-			if len(g.rules) > 1 {
-				r = 1
-			} else if g.items == 1 {
-				r = 0
-			}
-			if !g.adj && r == rank {
+			if !g.adj && g.rank == rank {
 				order = append(order, g)
 			}
 		}
